@@ -748,7 +748,7 @@ impl Check for LiveSpread {
                 Ok(resp) => {
                     acc += 1;
                     rec.class("limited_swap_accepted");
-                    let at = swap_attrs(&resp, &pw.pair).ok_or_else(|| Fail::new("swap response lacks attributes"))?;
+                    let at = swap_attrs(&resp, &pw.pair).ok_or_else(|| Fail::unobservable("the swap response carries no parsable return / spread / fee attributes"))?;
                     let gross = at.return_amount + at.swap_fee + at.protocol_fee + at.burn_fee;
                     match belief {
                         None => {
@@ -778,7 +778,7 @@ impl Check for LiveSpread {
                     // would the same swap go through without a limit, strictly inside the bound?
                     let r2 = pw.swap(&usr, oi, amount, None, Some(dec(HALF)), None);
                     if let Ok(resp) = r2 {
-                        let at = swap_attrs(&resp, &pw.pair).ok_or_else(|| Fail::new("swap response lacks attributes"))?;
+                        let at = swap_attrs(&resp, &pw.pair).ok_or_else(|| Fail::unobservable("the swap response carries no parsable return / spread / fee attributes"))?;
                         let gross = at.return_amount + at.swap_fee + at.protocol_fee + at.burn_fee;
                         let inside = match belief {
                             None => gross + at.spread_amount > 0 && verdict_plain(gross, at.spread_amount, eff) == Verdict::MustAccept,
@@ -1093,7 +1093,7 @@ impl Check for LiveSpreadTrio {
                 Ok(resp) => {
                     acc += 1;
                     rec.class("limited_swap_accepted");
-                    let at = swap_attrs(&resp, &tw.trio).ok_or_else(|| Fail::new("swap response lacks attributes"))?;
+                    let at = swap_attrs(&resp, &tw.trio).ok_or_else(|| Fail::unobservable("the swap response carries no parsable return / spread / fee attributes"))?;
                     let gross = at.return_amount + at.swap_fee + at.protocol_fee + at.burn_fee;
                     match belief {
                         None => {
@@ -1122,7 +1122,7 @@ impl Check for LiveSpreadTrio {
                 Err(_) => {
                     let r2 = tw.swap(&usr, oi, ai, amount, None, Some(dec(HALF)), None);
                     if let Ok(resp) = r2 {
-                        let at = swap_attrs(&resp, &tw.trio).ok_or_else(|| Fail::new("swap response lacks attributes"))?;
+                        let at = swap_attrs(&resp, &tw.trio).ok_or_else(|| Fail::unobservable("the swap response carries no parsable return / spread / fee attributes"))?;
                         let gross = at.return_amount + at.swap_fee + at.protocol_fee + at.burn_fee;
                         let inside = match belief {
                             None => gross + at.spread_amount > 0 && verdict_plain(gross, at.spread_amount, eff) == Verdict::MustAccept,
